@@ -1,5 +1,8 @@
 //! verif_core: property-based testing / fuzzing harness for timbeurskens/rsbdd.
+pub mod cli;
+pub mod dot;
 pub mod engine;
+pub mod front;
 pub mod fun;
 pub mod ops;
 pub mod plain;
